@@ -2,6 +2,7 @@ package c10
 
 import (
 	"fmt"
+	"os"
 	"reflect"
 	"strings"
 	"testing"
@@ -16,6 +17,10 @@ import (
 const funcsSrc = "fset = func(p, i, x) { p[i] = x }\n" +
 	"fapp = func(p, x) { p += x }\n" +
 	"fdel = func(p, k) { delete(p, k) }"
+
+// strictAppend turns off the exclusion of the shapes hit by the known defect
+// "appendSlice appends element by element" (see planApp).
+var strictAppend = os.Getenv("VERIF_C10_STRICT_APPEND") != ""
 
 // exec is one rendered step.
 type rendered struct {
@@ -379,6 +384,10 @@ func oracle(c Case, o *h.Obs) *h.Fail {
 			class("skip:%s", r.plan.skip)
 			continue
 		}
+		if r.plan.known != "" && !strictAppend {
+			class("skip:known_append_partial_write_%s", r.plan.known)
+			continue
+		}
 		for _, ic := range r.idx {
 			class("idx:%s:%s", r.t.cls, ic)
 		}
@@ -466,7 +475,7 @@ func oracle(c Case, o *h.Obs) *h.Fail {
 				errThenRead = true
 			}
 		}
-		class("op:%s:%s:%s", opName, r.t.cls, outcomeClass)
+		o.Class("op:%s:%s:%s", opName, r.t.cls, outcomeClass)
 		class("kind:%s", kind)
 		hist = append(hist, r.src+"    // "+outcomeClass)
 
@@ -482,7 +491,11 @@ func oracle(c Case, o *h.Obs) *h.Fail {
 			if err != nil {
 				clause = "changed-on-error"
 			}
-			return h.Failf(fmt.Sprintf("C10|%s|%s|%s|%s|%s", clause, opName, kind, d.what, role),
+			sig := fmt.Sprintf("C10|%s|%s|%s|%s|%s", clause, opName, kind, d.what, role)
+			if p.known != "" && role == "other" {
+				sig = "C10|append-partial-write|" + p.known + "|" + kind
+			}
+			return h.Failf(sig,
 				"history (last line is the failing step):\n%s\nafter it variable %s (%s, %s) differs\nmodel: %s\nanko:  %s",
 				strings.Join(hist, "\n"), slotName(d.slot), m.kinds[d.slot], d.what, d.want, d.got)
 		}
